@@ -912,7 +912,11 @@ def fam_inv_async(tier: str, rng: random.Random) -> Iterator[dict]:
         rng.shuffle(tri)
         tri = tri[:80]
     for ops in seqs + tri:
-        for inv_on in (["CALL"], ["ALL"]):
+        # (a SETATTR-only invariant next to one checked on calls: the async methods must select the same invariants
+        #  as the sync ones - the state flips below leave it broken while the instance is marked)
+        for inv_on in (["CALL"], ["ALL"], ["CALL", "SETATTR"], ["SETATTR", "CALL"]):
+            if len(inv_on) == 2 and len(ops) == 3:
+                continue
             p = class_prog(inv_on, [(k, st) for k, st, _ in members], [(m, 1) for m in ops], tag="inv-async")
             for i, (_, _, isasync) in enumerate(members):
                 p["fn"][i + 1]["async"] = isasync
